@@ -109,3 +109,128 @@ pub(crate) fn facts_json(p: &ReProgram) -> String {
         op_json(&p.operation)
     )
 }
+
+// ---------------------------------------------------------------------------
+// Tracer: one ndjson event per public API call, written at the call's return.
+// Enabled by the environment variable REGEXML_VERIF_TRACE=<directory>; each
+// process writes <directory>/<pid>.ndjson.
+// ---------------------------------------------------------------------------
+
+use std::cell::Cell;
+use std::io::Write;
+use std::sync::atomic::{AtomicU64, Ordering};
+use std::sync::{Mutex, OnceLock};
+
+use crate::analyze_string::{AnalyzeEntry, MatchEntry};
+use crate::re_compiler::Error;
+
+thread_local! {
+    static DEPTH: Cell<u32> = const { Cell::new(0) };
+}
+static NEXT_ID: AtomicU64 = AtomicU64::new(1);
+static SEQ: AtomicU64 = AtomicU64::new(1);
+static OUT: OnceLock<Option<Mutex<std::fs::File>>> = OnceLock::new();
+
+fn out() -> &'static Option<Mutex<std::fs::File>> {
+    OUT.get_or_init(|| {
+        let dir = std::env::var("REGEXML_VERIF_TRACE").ok()?;
+        let _ = std::fs::create_dir_all(&dir);
+        let path = format!("{}/{}.ndjson", dir, std::process::id());
+        std::fs::OpenOptions::new()
+            .create(true)
+            .append(true)
+            .open(path)
+            .ok()
+            .map(Mutex::new)
+    })
+}
+
+pub(crate) fn new_id() -> u64 {
+    NEXT_ID.fetch_add(1, Ordering::SeqCst)
+}
+
+/// Guard of a traced public call; resets the re-entrancy depth when dropped
+/// (also when the traced call panics).
+pub(crate) struct Traced;
+
+impl Drop for Traced {
+    fn drop(&mut self) {
+        DEPTH.with(|d| d.set(0));
+    }
+}
+
+/// Returns a guard if this is an outermost public call and tracing is on.
+pub(crate) fn enter() -> Option<Traced> {
+    if out().is_none() {
+        return None;
+    }
+    DEPTH.with(|d| {
+        if d.get() == 0 {
+            d.set(1);
+            Some(Traced)
+        } else {
+            None
+        }
+    })
+}
+
+pub(crate) fn str_json(s: &str) -> String {
+    let v: Vec<String> = s.chars().map(|c| (c as u32).to_string()).collect();
+    format!("[{}]", v.join(","))
+}
+
+pub(crate) fn err_json(e: &Error) -> String {
+    let name = match e {
+        Error::Internal => "Internal",
+        Error::InvalidFlags(_) => "InvalidFlags",
+        Error::Syntax(_) => "Syntax",
+        Error::MatchesEmptyString => "MatchesEmptyString",
+        Error::InvalidReplacementString(_) => "InvalidReplacementString",
+    };
+    format!("{{\"k\":\"err\",\"e\":\"{}\"}}", name)
+}
+
+fn tree_json(entries: &[MatchEntry]) -> String {
+    let v: Vec<String> = entries
+        .iter()
+        .map(|e| match e {
+            MatchEntry::String(s) => format!("{{\"s\":{}}}", str_json(s)),
+            MatchEntry::Group { nr, value } => {
+                format!("{{\"g\":{},\"v\":{}}}", nr, tree_json(value))
+            }
+        })
+        .collect();
+    format!("[{}]", v.join(","))
+}
+
+pub(crate) fn entry_json(e: &AnalyzeEntry) -> String {
+    match e {
+        AnalyzeEntry::Match(m) => format!("{{\"m\":{}}}", tree_json(m)),
+        AnalyzeEntry::NonMatch(s) => format!("{{\"n\":{}}}", str_json(s)),
+    }
+}
+
+/// Write one event; `body` is the inside of the JSON object after the common fields.
+pub(crate) fn log(ev: &str, body: String) {
+    if let Some(m) = out() {
+        let seq = SEQ.fetch_add(1, Ordering::SeqCst);
+        let line = format!("{{\"ev\":\"{}\",\"seq\":{},{}}}\n", ev, seq, body);
+        if let Ok(mut f) = m.lock() {
+            let _ = f.write_all(line.as_bytes());
+        }
+    }
+}
+
+/// Run a traced call, logging a panic as the result before resuming it.
+pub(crate) fn call<T>(ev: &str, ids: String, f: impl FnOnce() -> T, res: impl FnOnce(&T) -> String) -> T {
+    match std::panic::catch_unwind(std::panic::AssertUnwindSafe(f)) {
+        Ok(r) => {
+            log(ev, format!("{},\"res\":{}", ids, res(&r)));
+            r
+        }
+        Err(p) => {
+            log(ev, format!("{},\"res\":{{\"k\":\"panic\"}}", ids));
+            std::panic::resume_unwind(p)
+        }
+    }
+}
